@@ -42,7 +42,11 @@ Inductive expr :=
 | EInt (x : expr)                   (* int() *)
 | ELike (x y : expr)                (* like(text, pattern) *)
 | ECond (c x y : expr)              (* x if c else y   /   c ? x : y *)
-| EList (l : list expr).            (* [e1, .., ek] of atoms *)
+| EList (l : list expr)             (* [e1, .., ek] of atoms *)
+(* lower-case min / max / sum in their Python builtin meaning (several arguments, or one list argument) *)
+| EMinMax (is_max : bool) (l : list expr)     (* max(x, y, ..) / min(x, y, ..), two or more arguments *)
+| EMinMaxL (is_max : bool) (x : expr)         (* max(list) / min(list) *)
+| ESumL (x : expr).                           (* sum(list) *)
 
 Definition safe_get (r : rec) (i : nat) : atom := nth i r ANone.
 
@@ -68,6 +72,35 @@ Definition add_atoms (a b : atom) : res val :=
                 | _, _ => Err XType
                 end
       end
+  end.
+
+(* builtin max / min: the first maximal / minimal element (Python keeps the earlier one on ties) *)
+Fixpoint fold_minmax (is_max : bool) (cur : atom) (l : list atom) : res atom :=
+  match l with
+  | [] => Ok cur
+  | x :: t =>
+      match (if is_max then atom_ltb cur x else atom_ltb x cur) with
+      | Some true => fold_minmax is_max x t
+      | Some false => fold_minmax is_max cur t
+      | None => Err XType
+      end
+  end.
+Definition builtin_minmax (is_max : bool) (l : list atom) : res val :=
+  match l with
+  | [] => Err XValue                        (* max() arg is an empty sequence *)
+  | x :: t => match fold_minmax is_max x t with Ok a => Ok (VA a) | Err e => Err e end
+  end.
+Fixpoint builtin_sum (acc : atom) (l : list atom) : res val :=
+  match l with
+  | [] => Ok (VA acc)
+  | x :: t => match add_atoms acc x with
+              | Ok (VA a) => match acc, x with
+                             | AStr _, _ | _, AStr _ => Err XType      (* sum() refuses strings *)
+                             | _, _ => builtin_sum a t
+                             end
+              | Ok (VL _) => Err XUnmodelled
+              | Err e => Err e
+              end
   end.
 
 Definition as_atom (v : val) : res atom :=
@@ -150,5 +183,21 @@ Fixpoint eval (en : env) (e : expr) : res val :=
       | Ok a => Ok (VL a)
       | Err e => Err e
       end
+  | EMinMax is_max l =>
+      match (fix go (l : list expr) : res (list atom) :=
+               match l with
+               | [] => Ok []
+               | h :: t => do vh <- eval en h; do ah <- as_atom vh; do r <- go t; Ok (ah :: r)
+               end) l with
+      | Ok (a :: b :: r) => builtin_minmax is_max (a :: b :: r)
+      | Ok _ => Err XUnmodelled              (* fewer than two arguments: the aggregate / single-iterable forms *)
+      | Err e => Err e
+      end
+  | EMinMaxL is_max x =>
+      do vx <- eval en x;
+      match vx with VL l => builtin_minmax is_max l | VA _ => Err XUnmodelled end
+  | ESumL x =>
+      do vx <- eval en x;
+      match vx with VL l => builtin_sum (AInt 0) l | VA _ => Err XUnmodelled end
   end.
 End Eval.
